@@ -124,8 +124,9 @@ static bool run_flip(const Group &G, size_t N, size_t T, const std::vector<int> 
 	S.horizon = 200000;
 	// schedule policy tied to the variant: 0 round-robin (default), 1 reverse round-robin, >= 2 seeded random choice of the next party
 	Prf SP(seed * 2654435761ULL + valueset * 31 + N);
-	if (valueset == 1) S.pick = [](int, const std::vector<int> &c) -> size_t { return c.size() - 1; };
-	else if (valueset >= 2) S.pick = [&SP](int, const std::vector<int> &c) -> size_t { return (size_t)(SP.next() % c.size()); };
+	// (the candidate list ends with the yielding party itself while it is unfinished: never choose it if somebody else is left)
+	if (valueset == 1) S.pick = [](int me, const std::vector<int> &c) -> size_t { size_t m = c.size() - (c.back() == me && c.size() > 1 ? 1 : 0); return m - 1; };
+	else if (valueset >= 2) S.pick = [&SP](int me, const std::vector<int> &c) -> size_t { size_t m = c.size() - (c.back() == me && c.size() > 1 ? 1 : 0); return (size_t)(SP.next() % m); };
 	uint64_t n_mut = 0, n_crash = 0, n_recon = 0;
 	sched::Net ucast(N), bcast(N);
 	// --- ordering snapshot: commitments held at the first share-dependent unicast send
@@ -196,6 +197,7 @@ static bool run_flip(const Group &G, size_t N, size_t T, const std::vector<int> 
 		}
 		catch (Crash &) { ret[i] = -2; }
 		if (!devOf[i] && err.str().find("reconstructing parties") != std::string::npos) n_recon++;   // statistic only
+		if (getenv("C17_DUMP")) fprintf(stderr, "---- P%d (ret %d, finished at virtual second %ld)\n%s", i, ret[i], (long)(mcenv::vclock - 1700000000), err.str().c_str());
 		mpz_clear(a);
 	}, seed, &coins);
 	st.handoffs = S.handoffs, st.ticks = S.ticks, st.sent = ucast.sent + bcast.sent;
@@ -267,7 +269,7 @@ int main(int argc, char **argv)
 	Report R(A);
 	if (!init_libTMCG()) return 2;
 	MuteCerr mute;
-	bool thorough = A.tier == "thorough";
+	bool thorough = A.tier == "thorough" && !A.has("light");   // --light: quick-sized alphabets (asan pass of the thorough tier)
 	uint64_t seed = mcenv::env_seed();
 	Group G1, G2;
 	make_small(G1, 128, 64, seed);
